@@ -48,6 +48,7 @@ def run(ctx):
     ctx.do(rule_version_scope)
     ctx.do(rule_detector_reads_registries)
     ctx.do(rule_reference_shape_by_name)
+    ctx.do(rule_lookups_name_their_category)
     from .C02 import rule_definition_of_named_type
     ctx.do(rule_definition_of_named_type, rule_id="C19.builtin-parity")
     ctx.do(rule_builtin_parity)
@@ -340,6 +341,38 @@ def rule_detector_reads_registries(ctx):
               "detect_spec_version consults the type registries at other places than the one frozen exception: registering a custom "
               "type for one version changes which version unversioned content of that type name is taken for",
               file=fi.module.relpath, line=fi.node.lineno, function=fi.qualname, expected=want, found=reads)
+
+
+def rule_lookups_name_their_category(ctx):
+    """A type NAME is registered per category (objects, observables, markings, extensions) and the same name may legitimately
+    exist in several (a marking payload 'x-foo' and nothing else).  Every lookup in the registry says which category it means:
+    a lookup without one falls through all four, so registering a MARKING or an EXTENSION called 'x-leak' changes how an
+    object dictionary of type 'x-leak' is versioned (it becomes 'not versionable': the marking class has no `modified`)."""
+    run = ctx.run
+    prog = ctx.prog
+    cg = get_callgraph(prog) if "get_callgraph" in globals() else None
+    R = "C19.version-scope"
+    target = prog.func("stix2.registry::class_for_type")
+    cpos = target.params.index("category")
+    n = 0
+    for fi in sorted(prog.functions.values(), key=lambda f: f.id):
+        if fi.module.relpath.startswith("stix2/test") or fi is target:
+            continue
+        k_ = 0
+        for c in body_walk(fi.node):
+            if not (isinstance(c, ast.Call) and call_simple_name(c) == "class_for_type"):
+                continue
+            n += 1
+            k_ += 1
+            cat = c.args[cpos] if len(c.args) > cpos else next((k.value for k in c.keywords if k.arg == "category"), None)
+            ok = cat is not None and not (isinstance(cat, ast.Constant) and cat.value is None)
+            run.check(ok, R, key(fi.module.relpath, fi.qualname, "lookup-names-its-category#%d" % k_),
+                      "the registry is asked for a type name without a category: the answer can be a class of ANOTHER kind registered "
+                      "under the same name (a marking, an extension), so such a registration changes how objects of that type name "
+                      "are handled", file=fi.module.relpath, line=c.lineno, function=fi.qualname,
+                      expected="class_for_type(<type>, <version>, <category>)", found=short(c, 80))
+    if n < 6:
+        raise AnalysisError("fewer than 6 registry lookups found (%d)" % n)
 
 
 def rule_reference_shape_by_name(ctx):
